@@ -38,16 +38,17 @@ ASSUMPTIONS = [
 def plan(tier, seed):
     if tier == "quick":
         shards = plan_graph_shards("A", n_max=4, chunk=16)
-        for naming in ("adversarial", "selfprefix"):
+        for naming in ("adversarial", "selfprefix", "hyphen"):
             shards += [dict(s, naming=naming, bound=s["bound"] + " naming=" + naming) for s in plan_graph_shards("A", n_max=4, chunk=16)]
         shards += plan_graph_shards("B", n_max=5, n_min=5, k=2, parts=4)
         shards += plan_graph_shards("B", k=2, parts=8, with_ext=True, tree_list=list(trees(4)))
         shards += plan_graph_shards("N", n_max=5, n_min=3, k=2, parts=2)
         shards += [dict(s, phantom=True, bound=s["bound"] + " + imports of non-modules") for s in plan_graph_shards("A", n_max=4, chunk=16)]
+        shards += [dict(s, implicit=True, bound=s["bound"] + " ancestors implicit") for s in plan_graph_shards("A", n_max=4, chunk=16)]
     else:
         shards = plan_graph_shards("A", n_max=5, chunk=32)
         # other namings: the complete four-module space and every five-module architecture with <= 3 imports
-        for naming in ("adversarial", "selfprefix", "unicode"):
+        for naming in ("adversarial", "selfprefix", "unicode", "hyphen"):
             shards += [dict(s, naming=naming, bound=s["bound"] + " naming=" + naming)
                        for s in plan_graph_shards("A", n_max=4, chunk=16) + plan_graph_shards("B", n_max=5, n_min=5, k=3, parts=4)]
         shards += plan_graph_shards("B", n_max=6, n_min=6, k=3, parts=16)
@@ -55,6 +56,8 @@ def plan(tier, seed):
         shards += plan_graph_shards("B", k=2, parts=16, with_ext=True, tree_list=list(BIG_TREES))
         shards += plan_graph_shards("N", n_max=6, n_min=3, k=3, parts=8)
         shards += [dict(s, phantom=True, bound=s["bound"] + " + imports of non-modules")
+                   for s in plan_graph_shards("A", n_max=4, chunk=16) + plan_graph_shards("B", n_max=5, n_min=5, k=3, parts=4)]
+        shards += [dict(s, implicit=True, bound=s["bound"] + " ancestors implicit")
                    for s in plan_graph_shards("A", n_max=4, chunk=16) + plan_graph_shards("B", n_max=5, n_min=5, k=3, parts=4)]
     return {
         "shards": shards,
@@ -189,26 +192,26 @@ def run_shard(shard, tier, seed):
     res = Result(shard["bound"])
     for ns, I in shard_graphs(shard, seed):
         ns, I = renamed_graph(ns, I, shard.get("naming", "identity"))
-        ev = build(ns, I, seed, phantom=shard.get("phantom", False))
+        ev = build(ns, I, seed, phantom=shard.get("phantom", False), implicit=shard.get("implicit", False))
         res.states += 1
         for spec in _specs(ns):
             res.transitions += 1
             res.evaluations += 1
             v = judge(ns, I, spec, ev, seed, res)
             if v:
-                res.violation(v[0], {"modules": ns, "imports": I, "rule": spec_to_json(spec), "seed": seed, "phantom": shard.get("phantom", False)}, v[1], v[2])
+                res.violation(v[0], {"modules": ns, "imports": I, "rule": spec_to_json(spec), "seed": seed, "phantom": shard.get("phantom", False), "implicit": shard.get("implicit", False)}, v[1], v[2])
             elif len(res.samples) < 1 and I:
                 got = run_rule(mkrule(spec, seed), ev)
                 if got[0] == FAIL:
                     res.sample({"modules": ns, "imports": I, "rule": spec_to_json(spec), "message": got[1]})
         for q in query_checks(ns, I, _so(ns), ev, res):
-            res.violation(q[0], {"modules": ns, "imports": I, "query": {"subj": list(q[1]), "obj": list(q[2]), "sk": q[3], "ok": q[4]}, "seed": seed, "phantom": shard.get("phantom", False)}, q[5], q[6])
+            res.violation(q[0], {"modules": ns, "imports": I, "query": {"subj": list(q[1]), "obj": list(q[2]), "sk": q[3], "ok": q[4]}, "seed": seed, "phantom": shard.get("phantom", False), "implicit": shard.get("implicit", False)}, q[5], q[6])
     return res
 
 
 def _check_case(case):
     ns, I = case["modules"], [tuple(e) for e in case["imports"]]
-    ev = build(ns, I, case.get("seed", 0), phantom=case.get("phantom", False))
+    ev = build(ns, I, case.get("seed", 0), phantom=case.get("phantom", False), implicit=case.get("implicit", False))
     if "rule" in case:
         return judge(ns, I, case["rule"], ev, case.get("seed", 0), None)
     q = case["query"]
